@@ -63,6 +63,18 @@ def pools(seed, n=24):
             sembad.append({'text': text + f'\nTable {nm} {{\n  zz int\n}}\n', 'props': props})
         else:
             sembad.append({'text': text + '\nTable emptyone {\n}\n', 'props': props})
+    # pairs that reuse the same names with a different meaning: outcome must not depend on which was parsed first
+    pairs = []
+    for k in range(4):
+        tn, en = f'pair_t{k}', f'pair_status{k}'
+        b = (f'Enum {en} {{\n  active\n  gone\n}}\nTable {tn} {{\n  id int [pk]\n  st {en}\n  other sch{k}.{en}\n}}\n'
+             f'Enum sch{k}.{en} {{\n  x\n}}\n')
+        a = f'Table {tn} {{\n  id int [pk]\n  st {en}\n  other sch{k}.{en}\n  extra text\n}}\n'      # same type names, no enums
+        c = f'Table {tn} as {en} {{\n  id int\n}}\nTable other{k} {{\n  x int [ref: > {en}.id]\n}}\nTableGroup {en} {{\n  {tn}\n}}\n'
+        pairs.append(({'text': b, 'props': False}, {'text': a, 'props': False}, {'text': c, 'props': False}))
+    # the enum-declaring documents become fixed documents 0..3, their name-sakes go to the history pool
+    valid = [p[0] for p in pairs] + valid
+    valid += [p[1] for p in pairs] + [p[2] for p in pairs]
     return valid, synbad, sembad
 
 
@@ -109,6 +121,11 @@ def grammar_fingerprint():
 def mon_history(sh, seed, i, tier, valid, synbad, sembad):
     rng = random.Random(f'{seed}-hist-{i}')
     fixed = valid[:8]
+    if i % 2:
+        # odd shards parse the name-sake documents BEFORE the fixed ones get their reference outcome:
+        # the cross-shard comparison of the det| digests then sees an order dependence as well
+        for d in valid[-8:]:
+            out_digest(d)
     ref = [out_digest(d)[0] for d in fixed]          # also the warm-up
     for k, (d, r) in enumerate(zip(fixed, ref)):
         sh.count(f'det|{k}|{r}')                      # compared across shards (processes, hash seeds)
